@@ -424,11 +424,122 @@ fn run_api(l: &[Val]) -> Val {
     }
 }
 
+// ---------------------------------------------------------------- NLRI
+fn v6_of(v: &Val) -> Ipv6Addr {
+    let b = v.bytes();
+    let mut a = [0u8; 16];
+    a.copy_from_slice(&b[..16]);
+    Ipv6Addr::from(a)
+}
+
+fn labels_val(l: &packet::mpls::MplsLabelStack) -> Val {
+    Val::L(l.labels().iter().map(|x| Val::n(x.value())).collect())
+}
+
+fn nlri_val(n: &Nlri) -> Val {
+    match n {
+        Nlri::V4(x) => Val::L(vec![i(4), Val::n(u32::from(x.addr)), Val::n(x.mask)]),
+        Nlri::V6(x) => Val::L(vec![i(6), Val::from_bytes(&x.addr.octets()), Val::n(x.mask)]),
+        Nlri::LabeledV4(x) => Val::L(vec![
+            i(14),
+            labels_val(&x.labels),
+            Val::n(u32::from(x.prefix.addr)),
+            Val::n(x.prefix.mask),
+        ]),
+        Nlri::LabeledV6(x) => Val::L(vec![
+            i(16),
+            labels_val(&x.labels),
+            Val::from_bytes(&x.prefix.addr.octets()),
+            Val::n(x.prefix.mask),
+        ]),
+        _ => Val::L(vec![i(99)]),
+    }
+}
+
+fn nlri_of(v: &Val) -> Nlri {
+    use packet::mpls::{MplsLabel, MplsLabelStack};
+    let l = v.list();
+    let stack = |v: &Val| MplsLabelStack::new(v.list().iter().map(|x| MplsLabel::new(x.u32())).collect());
+    match l[0].int() {
+        4 => Nlri::V4(Ipv4Net { addr: Ipv4Addr::from(l[1].u32()), mask: l[2].u8() }),
+        6 => Nlri::V6(Ipv6Net { addr: v6_of(&l[1]), mask: l[2].u8() }),
+        14 => Nlri::LabeledV4(packet::labeled::LabeledV4Nlri {
+            labels: stack(&l[1]),
+            prefix: Ipv4Net { addr: Ipv4Addr::from(l[2].u32()), mask: l[3].u8() },
+        }),
+        16 => Nlri::LabeledV6(packet::labeled::LabeledV6Nlri {
+            labels: stack(&l[1]),
+            prefix: Ipv6Net { addr: v6_of(&l[2]), mask: l[3].u8() },
+        }),
+        k => panic!("verif: unknown nlri tag {}", k),
+    }
+}
+
+fn api_nlri_val(n: &api::Nlri) -> Val {
+    match &n.nlri {
+        None => Val::L(vec![i(0)]),
+        Some(api::nlri::Nlri::Prefix(p)) => Val::L(vec![i(1), s_val(&p.prefix), Val::n(p.prefix_len)]),
+        Some(api::nlri::Nlri::LabeledPrefix(p)) => Val::L(vec![
+            i(2),
+            Val::L(p.labels.iter().map(|x| Val::n(*x)).collect()),
+            s_val(&p.prefix),
+            Val::n(p.prefix_len),
+        ]),
+        Some(_) => Val::L(vec![i(99)]),
+    }
+}
+
+fn api_nlri_of(v: &Val) -> api::Nlri {
+    let l = v.list();
+    let nlri = match l[0].int() {
+        0 => None,
+        1 => Some(api::nlri::Nlri::Prefix(api::IpAddressPrefix {
+            prefix: s_of(&l[1]),
+            prefix_len: l[2].u32(),
+        })),
+        2 => Some(api::nlri::Nlri::LabeledPrefix(api::LabeledIpAddressPrefix {
+            labels: l[1].list().iter().map(|x| x.u32()).collect(),
+            prefix: s_of(&l[2]),
+            prefix_len: l[3].u32(),
+        })),
+        k => panic!("verif: unknown api nlri tag {}", k),
+    };
+    api::Nlri { nlri }
+}
+
+fn net_from_api_val(r: Result<Nlri, Error>) -> Val {
+    match r {
+        Ok(n) => Val::L(vec![i(1), nlri_val(&n)]),
+        Err(_) => Val::L(vec![i(0)]),
+    }
+}
+
+// kind 2: an API NLRI message
+fn run_api_nlri(l: &[Val]) -> Val {
+    match net_from_api(api_nlri_of(&l[1]), Family::IPV4) {
+        Err(_) => Val::L(vec![i(0)]),
+        Ok(n) => {
+            let enc = caught(|| Val::from_bytes(&n.encode_to_bytes()));
+            Val::L(vec![i(1), nlri_val(&n), enc])
+        }
+    }
+}
+
+// kind 3: an internal NLRI value
+fn run_nlri(l: &[Val]) -> Val {
+    let n = nlri_of(&l[1]);
+    let x = nlri_to_api(&n);
+    let back = net_from_api(x.clone(), Family::IPV4);
+    Val::L(vec![api_nlri_val(&x), net_from_api_val(back)])
+}
+
 fn run_case(case: &Val) -> Val {
     let l = case.list();
     match l[0].int() {
         0 => run_wire(l),
         1 => run_api(l),
+        2 => run_api_nlri(l),
+        3 => run_nlri(l),
         k => panic!("verif: unknown case kind {}", k),
     }
 }
